@@ -8,6 +8,7 @@ def dispatchInterop (line : String) : String :=
   | "st" :: args => handleStruct args
   | "rs" :: args => handleResult args
   | "cb" :: args => handleCallback args
+  | "ov" :: args => handleOverride args
   | _ => "bad-op"
 
 partial def loopInterop (h : IO.FS.Stream) (out : IO.FS.Stream) : IO Unit := do
